@@ -125,18 +125,38 @@ Definition wf_line (t : tree) (l : bytes) : bool :=
              && (op_wild o || abs_cleanb n)
       end).
 
+(* src= lines (type file): the source is written as a clean absolute path -- below "$$stageroot"
+   (then not through a symlinked directory of the build root) or of the host -- and is a regular
+   file, a device node (src=/dev/null) or absent; a directory, symlink, fifo or socket as the source
+   of a `file` entry is outside the modelled domain *)
+Definition src_ok (t : tree) (o : op) : bool :=
+  match o with
+  | OAdd li =>
+    match li_src li with
+    | Some s =>
+      match s with
+      | SRoot p => abs_cleanb p && no_link_above t p
+      | SAbs p _ => abs_cleanb p
+      end
+      && match src_lstat t s with None | Some (NFile _) | Some NDev => true | Some _ => false end
+    | None => true
+    end
+  | _ => true
+  end.
+
 Definition wf (c : case) : bool :=
   let i := c_in c in
   let t := i_tree i in
   c_selok c && wf_tree t && wf_pkgs t (i_pkgs i)
   && forallb (wf_line t) (i_script i)
+  && forallb (src_ok t) (user_script i)
   && forallb (fun kv => match snd kv with
                         | NLink _ => forallb (no_link_above t) (chain_targets t chain_fuel (fst kv))
                         | _ => true
                         end) t.
 
 (* ---------------------------------------------------------------- the property on one run *)
-Definition user_ops (i : input) : list op := script_ops (i_script i).
+Definition user_ops (i : input) : list op := user_script i.
 Definition key (x : member) : bytes := tl (m_name x).          (* "./usr/bin" |-> "/usr/bin" *)
 Definition has (ms : list member) (k : bytes) : bool := existsb (fun x => feq (m_name x) (dot :: k)) ms.
 
@@ -185,6 +205,36 @@ Fixpoint s_hardlinks (t : tree) (seen : list member) (ms : list member) : bool :
        end
     then s_hardlinks t (x :: seen) r else false
   end.
+(* 4b. an entry whose contents come from a src= file is a regular-file member of its own name: it
+       is not a hard link and no hard link refers to it -- what the archive calls "the same inode"
+       is the inode that *path* has in the build root (clause 4), not the inode some other path's
+       contents were read from.  The one exception the text leaves open: the src= file is the very
+       inode the entry's own path has in the build root (src= names another link of it); then
+       clause 4 alone decides.  A later line naming the path again (add or omit) supersedes the
+       src= line. *)
+Definition src_same (t : tree) (s : srcref) (n : bytes) : bool :=
+  match src_lstat t s, lstat t n with
+  | Some (NFile (Some g)), Some (NFile (Some h)) => g =? h
+  | _, _ => false
+  end.
+Definition src_member_ok (n : bytes) (ms : list member) : bool :=
+  forallb (fun x => (if feq (key x) n then mkind_beq (m_kind x) KReg else true)
+                    && (if mkind_beq (m_kind x) KLink then negb (feq (m_link x) (dot :: n)) else true)) ms.
+Fixpoint s_src (t : tree) (ms : list member) (ops : list op) : bool :=
+  match ops with
+  | [] => true
+  | o :: r =>
+    match o with
+    | OAdd li =>
+      match li_src li with
+      | Some s => let n := li_name li in
+                  if omits r n then true else if adds t r n then true
+                  else if src_same t s n then true else src_member_ok n ms
+      | None => true
+      end
+    | _ => true
+    end && s_src t ms r
+  end.
 (* 5. every existing file, directory and symlink recorded for a selected package, unless the
       user omitted it *)
 Definition is_fdl (t : tree) (n : bytes) : bool :=
@@ -208,7 +258,7 @@ Definition s_vdb_out (i : input) (uops : list op) (pars : list bytes) (ms : list
 (* 7. the standard stage directories (7a); the static /dev nodes (7b), none of them with
       -emptydev (7c) *)
 Definition std_dirs : list bytes :=
-  flat_map (fun o => match o with OAdd (MkLI TDir n false _ _ _) => [n] | _ => [] end) stddir_ops.
+  flat_map (fun o => match o with OAdd (MkLI TDir n false _ _ _ _) => [n] | _ => [] end) stddir_ops.
 Definition op_names (ops : list op) : list bytes :=
   flat_map (fun o => match o with OAdd li => [li_name li] | _ => [] end) ops.
 Definition static_names : list bytes :=
@@ -285,6 +335,7 @@ Definition spec_ok (i : input) (ls : list bytes) (ms : list member) : bool :=
   let uops := user_ops i in
   let pars := member_parents ms in
   s_relative ms && s_unique ms && s_parents [] (map key ms) && s_hardlinks (i_tree i) [] ms
+  && s_src (i_tree i) ms uops
   && list_beq feq ls (map key ms)
   && s_pkgfiles i uops ms && s_vdb_in i uops ms && s_std_dirs uops ms && s_static_in i uops ms
   && s_user (i_tree i) ms uops && s_unselected i uops ms && s_omit (i_tree i) pars ms uops
